@@ -8,7 +8,7 @@ import (
 
 func init() {
 	props["C11"] = &propCheck{
-		lean:    []string{"JSight.Props.C11", "JSight.Props.C02_Located", "JSight.Props.C04_Build", "JSight.Props.C04_Content", "JSight.Props.C07", "JSight.Props.C13", "JSight.Props.C13_Bind", "JSight.Props.C19_Build"},
+		lean:    []string{"JSight.Props.C11", "JSight.Props.C11_Enum", "JSight.Props.C02_Located", "JSight.Props.C04_Build", "JSight.Props.C04_Content", "JSight.Props.C07", "JSight.Props.C13", "JSight.Props.C13_Bind", "JSight.Props.C19_Build"},
 		exes:    []string{"jsight-build"},
 		run:     runC11,
 		assume:  []string{"references inside schema bodies (undefined type / enum) are resolved by the schema library (oracle); duplicates, second singletons, missing required parameters and undeclared tags are theorems of the catalog model (C04_Build group B), macro faults of C07, path-parameter faults of C13/C13_Bind"},
